@@ -561,7 +561,27 @@ class _NP(types.ModuleType):
         return SymArray(to_obj(x).copy(), NP._kind(dtype, None))
 
     @staticmethod
+    def _cast(x, dtype):
+        """elementwise value conversion of np.asarray / np.array / astype to an INTEGER dtype: truncation toward zero
+        (symbolic elements: Ackermannised truncation, see core.sv_trunc); other dtypes keep the values"""
+        a = as_sym(x)
+        try:
+            is_int = dtype is not None and _np.issubdtype(_np.dtype(dtype), _np.integer)
+        except TypeError:
+            is_int = False
+        if not is_int or a.kind in ("int", "bool"):
+            return None
+        out = _np.empty(a.a.shape, dtype=object)
+        for idx in _np.ndindex(*a.a.shape):
+            e = SV.of(a.a[idx])
+            out[idx] = e if e.isint else core.sv_trunc(e)
+        return SymArray(out, "int")
+
+    @staticmethod
     def asarray(x, dtype=None, **k):
+        c = NP._cast(x, dtype) if dtype is not None else None
+        if c is not None:
+            return c
         if isinstance(x, SymArray):
             return x
         return SymArray(to_obj(x), NP._kind(dtype, None))
